@@ -494,6 +494,37 @@ class PureInterp:
         else:
             raise Unsupported("assignment target")
 
+    def _class_attr(self, cls, name):
+        """A plain class-level attribute (constant table, not an attrs/dataclass field declaration), looked up along repo base classes."""
+        seen = set()
+        stack = [cls]
+        while stack:
+            c = stack.pop(0)
+            if id(c) in seen or not isinstance(c, ClassInfo):
+                continue
+            seen.add(id(c))
+            for fname, _ann, value in c.fields:
+                if fname == name and value is not None:
+                    if isinstance(value, ast.Call) and (self.index.canon(value.func, c.module) or "").rsplit(".", 1)[-1] in ("field", "ib", "attrib", "Factory"):
+                        return Ellipsis
+                    return self.eval(value, {}, c.module)
+            for b in getattr(c, "base_exprs", []):
+                bc = self.index.lookup(self.index.canon(b, c.module) or "")
+                if isinstance(bc, ClassInfo):
+                    stack.append(bc)
+        return Ellipsis
+
+    def _unpacked_global(self, name, module, depth):
+        """Module-level `a, b, c = <expr>`: the index records only simple names, so resolve tuple targets here."""
+        for st in module.tree.body:
+            if isinstance(st, ast.Assign) and len(st.targets) == 1 and isinstance(st.targets[0], (ast.Tuple, ast.List)):
+                names = [e.id if isinstance(e, ast.Name) else None for e in st.targets[0].elts]
+                if name in names:
+                    vals = list(self._iterable(self.eval(st.value, {}, module, depth + 1)))
+                    if len(vals) == len(names):
+                        return vals[names.index(name)]
+        return Ellipsis
+
     def _exitstack(self, depth):
         """contextlib.ExitStack: enter_context/callback/push register exits that run in reverse order when the stack's with-block ends."""
         stack = Obj("exitstack", _exits=[])
@@ -623,6 +654,9 @@ class PureInterp:
             return env[n.id]
         canon = self.index.canon(n, module)
         if canon is None:
+            v = self._unpacked_global(n.id, module, depth)
+            if v is not Ellipsis:
+                return v
             raise Raised("NameError", n.id)
         if canon.startswith("builtins."):
             return FuncRef(canon)
@@ -672,6 +706,9 @@ class PureInterp:
                         if "property" in mth.decorator_names():
                             return self.call(mth, (), {}, self_obj=o, depth=depth + 1)
                         return ("bound", mth, o)
+                    cv = self._class_attr(cls, n.attr)
+                    if cv is not Ellipsis:
+                        return cv
                 if ("attr:" + n.attr) in self.hooks:
                     return ("hookattr", n.attr, o)
                 raise Raised("AttributeError", n.attr)
@@ -811,6 +848,11 @@ class PureInterp:
 
     def _iterable(self, v):
         """Iteration protocol for symbolic objects: NamedTuple-like objects iterate their fields, objects of repo classes use __iter__."""
+        if isinstance(v, ClassInfo):
+            from .consteval import enum_members
+            if any((self.index.canon(b, v.module) or "").rsplit(".", 1)[-1] in ("Enum", "IntEnum", "Flag", "StrEnum") for b in getattr(v, "base_exprs", [])):
+                return iter([EnumVal(f"{v.module.name}.{v.qual}", m) for m in enum_members(self.index, v)])
+            raise Raised("TypeError", f"class {v.name} is not iterable")
         if isinstance(v, Obj):
             seq = self._as_sequence(v)
             if seq is not None:
@@ -1027,7 +1069,7 @@ class PureInterp:
                             default = self.eval(k.value, {}, cls.module)
                         except (Unsupported, Raised, CantEval):
                             default = Ellipsis
-                    if k.arg == "factory":
+                    if k.arg in ("factory", "default_factory"):
                         fn = dotted(k.value)
                         default = {"dict": dict, "list": list, "set": set}.get(fn, lambda: None)()
             elif value is not None:
